@@ -766,8 +766,61 @@ fn small_or_wide(bits: u32) -> BoxedStrategy<i64> {
     prop_oneof![0i64..8, 0i64..(1i64 << bits)].boxed()
 }
 
+/// magnitude with a uniformly drawn bit length 0..=maxlen and a random mantissa (log-uniform over the magnitudes)
+fn bitlen_mag(maxlen: u32) -> impl Strategy<Value = i64> {
+    (0u32..=maxlen, any::<u32>()).prop_map(|(l, r)| if l == 0 { 0 } else { (1i64 << (l - 1)) | (r as i64 & ((1i64 << (l - 1)) - 1)) })
+}
+fn bitlen_operand() -> impl Strategy<Value = i32> {
+    (bitlen_mag(31), sign()).prop_map(|(m, s)| clamp32(s * m))
+}
+/// divisors of every magnitude class, with extra weight next to MAX / MIN (distance log-uniform up to 2^27)
+fn divisor() -> BoxedStrategy<i32> {
+    prop_oneof![
+        3 => bitlen_operand(),
+        2 => (bitlen_mag(27), any::<bool>()).prop_map(|(d, top)| if top { clamp32(i32::MAX as i64 - d) } else { clamp32(i32::MIN as i64 + d) }),
+        1 => operand(),
+    ]
+    .boxed()
+}
+/// exponent of a power of two that an intermediate may straddle: the 32-bit and 48-bit limits weighted, every other one too
+fn straddle_exp() -> impl Strategy<Value = u32> {
+    prop_oneof![2 => Just(32u32), 1 => Just(31u32), 1 => Just(47u32), 1 => Just(48u32), 1 => Just(16u32), 1 => Just(15u32), 3 => 2u32..=62]
+}
+/// signed offset with a log-uniform magnitude below 2^27
+fn offset27() -> impl Strategy<Value = i64> {
+    (bitlen_mag(27), sign()).prop_map(|(m, s)| m * s)
+}
+
 fn ops_strategy() -> impl Strategy<Value = Ops> {
     let free = (operand(), operand(), operand()).prop_map(|(a, b, c)| Ops { a, b, c });
+    // every combination of operand magnitude classes (bit lengths 0..=31 independently)
+    let free_bitlen = (bitlen_operand(), bitlen_operand(), divisor()).prop_map(|(a, b, c)| Ops { a, b, c });
+    // |a*b| (or the rounded numerator |a*b| + |c|/2 of mul_div, or |a*b| + 2^15 of Mul) within +-2^27 of a power of two 2^t:
+    // a from a bit-length class (half of the time near t/2), b = (2^t + off [- |c|/2]) / a; divisor c of any class
+    let straddle = (straddle_exp(), any::<u32>(), any::<bool>(), any::<u32>(), offset27(), 0u8..3, divisor(), sign(), sign(), any::<bool>()).prop_map(
+        |(t, lsel, balanced, mant, off, round, c, s1, s2, swap)| {
+            let (lo, hi) = (t.saturating_sub(31).max(1), t.min(31));
+            let (lo, hi) = if balanced { ((t / 2).saturating_sub(1).clamp(lo, hi), (t / 2 + 2).clamp(lo, hi)) } else { (lo, hi) };
+            let l = lo + ((lsel as u64 * (hi - lo + 1) as u64) >> 32) as u32;
+            let a = (1i64 << (l - 1)) | (mant as i64 & ((1i64 << (l - 1)) - 1));
+            let sub = match round {
+                0 => 0,
+                1 => (c as i64).abs() / 2, // numerator of mul_div
+                _ => 0x8000,               // numerator of Mul
+            };
+            let target = (1i128 << t) + off as i128 - sub as i128;
+            let b = (target / a as i128).clamp(0, i32::MAX as i128) as i64;
+            let (a, b) = (clamp32(s1 * a), clamp32(s2 * b));
+            let (a, b) = if swap { (b, a) } else { (a, b) };
+            Ops { a, b, c }
+        },
+    );
+    // quotient of Div next to a power of two (incl. the 2^31 limit of representability): b = a*2^16 / (2^t + off)
+    let div_edge = (bitlen_operand(), 1u32..=32, offset27(), -1i64..=1, sign(), divisor()).prop_map(|(a, t, off, d, s2, c)| {
+        let q = ((1i64 << t) + off % (1i64 << t)).max(1);
+        let b = (((a as i64).abs() << 16) / q + d).clamp(0, i32::MAX as i64);
+        Ops { a, b: clamp32(s2 * b), c }
+    });
     // a*b = odd * 2^15: the product is exactly half-way between two 16.16 values
     let mul_tie = (0u32..=15, small_or_wide(14), small_or_wide(14), sign(), sign(), operand())
         .prop_map(|(k, m, n, s1, s2, c)| Ops { a: clamp32(s1 * ((2 * m + 1) << k)), b: clamp32(s2 * ((2 * n + 1) << (15 - k))), c });
@@ -793,7 +846,7 @@ fn ops_strategy() -> impl Strategy<Value = Ops> {
             _ => Ops { c: clamp32(o.c as i64 + d), ..o },
         });
     let by_zero = (operand(), operand(), any::<bool>()).prop_map(|(a, b, z)| if z { Ops { a, b: 0, c: b } } else { Ops { a, b, c: 0 } });
-    prop_oneof![6 => free, 3 => ties, 2 => near, 1 => by_zero]
+    prop_oneof![5 => free, 3 => free_bitlen, 5 => straddle, 1 => div_edge, 3 => ties, 2 => near, 1 => by_zero]
 }
 
 fn test_ops(o: &Ops, stats: &Stats) -> CaseResult {
@@ -818,6 +871,23 @@ fn test_ops(o: &Ops, stats: &Stats) -> CaseResult {
     }
     if n.div0 > 0 {
         stats.class("random:by_zero");
+    }
+    // intermediates next to the 32-bit limit, with a large divisor (measured, see the rule)
+    let prod = (o.a as i128 * o.b as i128).abs();
+    let cabs = (o.c as i128).abs();
+    if cabs >= 1 << 30 {
+        if (prod - (1i128 << 32)).abs() <= 1 << 27 {
+            stats.class("random:product_within_2^27_of_2^32_and_divisor_ge_2^30");
+        }
+        if (prod + cabs / 2 - (1i128 << 32)).abs() <= 1 << 27 {
+            stats.class("random:mul_div_numerator_within_2^27_of_2^32_and_divisor_ge_2^30");
+            if (prod + cabs / 2 - (1i128 << 32)).abs() <= 1 << 23 && (o.a as i64).abs().max((o.b as i64).abs()) < 1 << 17 {
+                stats.class("random:mul_div_numerator_within_2^23_of_2^32_both_factors_below_2^17");
+            }
+        }
+    }
+    if (prod - (1i128 << 47)).abs() <= 1 << 42 || (prod - (1i128 << 48)).abs() <= 1 << 43 {
+        stats.class("random:product_near_2^47_or_2^48");
     }
     if n.mul + n.div + n.muldiv == 0 {
         stats.class("random:case_nothing_representable");
@@ -1212,7 +1282,7 @@ fn main() {
         "Exhaustive index stages: one case = one block of bit patterns (scalar16: 1024 of the 2^16; scalar24: 65536 of the 2^24; fixed32: one high half-word x all 65536 \
          low half-words in the thorough tier, x 26 boundary + 4096 strided low half-words in quick, the 12 blocks around 0, MIN and MAX always complete); arith-grid: one case = \
          one grid value a, checked against every (b) and (b,c) of the boundary grid (0, +-1, +-0x7FFF, +-0x8000, +-0x8001, +-0xFFFF, +-0x10000, 2^k, 2^k+-1, 3*2^k, 5*2^k, MIN, MAX, ...). \
-         Proptest stages: operands uniform / small / grid+-delta / constructed exact halves (a*b = odd*2^15, a = e(2q+1) & b = e*2^17, c = 2a & b odd) and the same moved by one unit; \
+         Proptest stages: operands uniform / small / grid+-delta / log-uniform (every bit length 0..=31 per operand independently, divisors also next to MAX/MIN) / products and rounded numerators placed within +-2^27 of a power of two 2^t (t = 31, 32, 47, 48, 15, 16 weighted, any 2..62) / Div quotients next to 2^t / constructed exact halves (a*b = odd*2^15, a = e(2q+1) & b = e*2^17, c = 2a & b odd) and the same moved by one unit; \
          floats built as (k + j/256)/ONE moved by -3..3 ulp, arbitrary in-range bit patterns, (MIN|MAX + j/4)/ONE +- ulps, and arbitrary magnitudes beyond the range incl. +-inf (expected: saturation to MIN/MAX = the nearest representable value). Non-trivial: the operand tuple / input contains a negative value or an exact half-way \
          case (blocks of the exhaustive stages always do: one hash per block; proptest stages: one hash in eight is kept, `*:nontrivial_cases` counts all). Binary results are compared only when the exact result is representable in 32 bits.",
     );
@@ -1237,7 +1307,7 @@ fn main() {
     // binary arithmetic
     let g = grid();
     ctx.index_stage("arith-grid", Isolation::Threads, g.len() as u64, |i| GridCase { a: g[i as usize] }, test_grid);
-    ctx.prop_stage("arith-random", Isolation::Threads, ctx.n(4_000_000, 30_000_000), ops_strategy, test_ops);
+    ctx.prop_stage("arith-random", Isolation::Threads, ctx.n(6_000_000, 40_000_000), ops_strategy, test_ops);
 
     // floats
     ctx.prop_stage("float-conv", Isolation::Threads, ctx.n(2_000_000, 15_000_000), float_strategy, test_float);
